@@ -209,6 +209,8 @@ namespace BitSerializer
 							{
 								isValid = false;
 							}
+							// The dot cannot be first in the domain part as well
+							lastDotPos = i;
 						}
 						else if (ch >= sizeof(allowedLocalPartChars) || allowedLocalPartChars[ch] == 0)
 						{
